@@ -1,19 +1,19 @@
 typedef unsigned long u64;
-u64 ga = 894; u64 gb = 764; u64 gc_[4] = {1,2,3,455}; static u64 sa = 306; static u64 sb[3] = {388,5,6};
+u64 ga = 311; u64 gb = 41; u64 gc_[4] = {1,2,3,153}; static u64 sa = 35; static u64 sb[3] = {249,5,6};
 __thread u64 tva = 3; __thread u64 tvb = 4;
 extern u64 ext_a, ext_b; extern u64 ext_f(u64); extern u64 ext_g(u64);
-__attribute__((noinline)) u64 fn0(u64 x) { return x * 847 + ga + sb[0]; }
-__attribute__((noinline)) static u64 sf0(u64 x) { return (x ^ 894) + sa + gb; }
-__attribute__((noinline)) u64 fn1(u64 x) { return x * 107 + ga + sb[1]; }
-__attribute__((noinline)) static u64 sf1(u64 x) { return (x ^ 764) + sa + gb; }
-__attribute__((noinline)) u64 fn2(u64 x) { return x * 759 + ga + sb[2]; }
-__attribute__((noinline)) static u64 sf2(u64 x) { return (x ^ 455) + sa + gb; }
-__attribute__((noinline)) u64 fn3(u64 x) { return x * 769 + ga + sb[0]; }
-__attribute__((noinline)) static u64 sf3(u64 x) { return (x ^ 306) + sa + gb; }
-__attribute__((noinline)) u64 fn4(u64 x) { return x * 193 + ga + sb[1]; }
-__attribute__((noinline)) static u64 sf4(u64 x) { return (x ^ 388) + sa + gb; }
-__attribute__((noinline)) u64 fn5(u64 x) { return x * 847 + ga + sb[2]; }
-__attribute__((noinline)) static u64 sf5(u64 x) { return (x ^ 847) + sa + gb; }
+__attribute__((noinline)) u64 fn0(u64 x) { return x * 987 + ga + sb[0]; }
+__attribute__((noinline)) static u64 sf0(u64 x) { return (x ^ 311) + sa + gb; }
+__attribute__((noinline)) u64 fn1(u64 x) { return x * 885 + ga + sb[1]; }
+__attribute__((noinline)) static u64 sf1(u64 x) { return (x ^ 41) + sa + gb; }
+__attribute__((noinline)) u64 fn2(u64 x) { return x * 729 + ga + sb[2]; }
+__attribute__((noinline)) static u64 sf2(u64 x) { return (x ^ 153) + sa + gb; }
+__attribute__((noinline)) u64 fn3(u64 x) { return x * 699 + ga + sb[0]; }
+__attribute__((noinline)) static u64 sf3(u64 x) { return (x ^ 35) + sa + gb; }
+__attribute__((noinline)) u64 fn4(u64 x) { return x * 543 + ga + sb[1]; }
+__attribute__((noinline)) static u64 sf4(u64 x) { return (x ^ 249) + sa + gb; }
+__attribute__((noinline)) u64 fn5(u64 x) { return x * 987 + ga + sb[2]; }
+__attribute__((noinline)) static u64 sf5(u64 x) { return (x ^ 986) + sa + gb; }
 u64 (*const ftab[])(u64) = {fn0, fn1, fn2, fn3, fn4, fn5, sf0, sf1, sf2, sf3, sf4, sf5};
 u64 *ptab[] = { &ga, &gb, &gc_[2], &sa, &sb[1], &ext_a };
 __attribute__((constructor)) static void ctor_a(void) { ga += 1; }
